@@ -304,6 +304,16 @@ LiqChainOK(s, acts, visited) ==
            r == LiqStep(s, a.collateral, a.debt)
        IN a.debt \notin visited /\ ~r.skip /\ LiqStepOK(s, r.st, a) /\ LiqChainOK(r.st, Tail(acts), visited \cup {a.debt})
 
+(* relational verdict on a whole recorded update(): state before, state after, the recorded (collateral, debt) pairs *)
+LiqRunOK(s, s2, acts) ==
+  /\ (HFGe1(HF(s)) => acts = <<>> /\ s2.sb = s.sb /\ s2.bb = s.bb)
+  /\ (HFLt1(HF(s)) /\ QGt(HF(s), Zero) /\ (\A t \in Tokens : HasSup(s, t) /\ s.sc[t] => Risk[t].lt # Zero) => acts # <<>>)
+  /\ s2.w = s.w
+  /\ \A i, j \in DOMAIN acts : i # j => acts[i].debt # acts[j].debt
+  /\ \/ HFGe1(HF(s2)) \/ HF(s2) = Zero
+     \/ \A t \in Tokens : HasBor(s2, t) => (\E i \in DOMAIN acts : acts[i].debt = t)
+                                           \/ (\E c \in Tokens : s.sc[c] /\ Risk[c].lt = Zero)
+
 Act_C12(st, ev, r) ==
   ev.op = "update" =>
     /\ (HFGe1(HF(st)) => r.acts = <<>> /\ r.st.sb = st.sb /\ r.st.bb = st.bb)                \* only below 1
